@@ -41,19 +41,25 @@ Definition outcome_tag {A} (x : outcome A) : bytes :=
   | OutOfFuel => s2b "OUTOFFUEL"
   end.
 
+(** the probe loops over [-2,len+2] and [min-2,max+2] are skipped (by the Go driver too: its
+    own loop counters would overflow, or the loops run for ever) when the coordinates sit at the
+    edge of the int range or the span is wide *)
+Definition probe_guard (n mn mx : Z) : bool :=
+  (mn <? - 2 ^ 62) || (2 ^ 62 <? mx) || (2 ^ 20 <? mx - mn) || (2 ^ 20 <? n).
+
 (** observation of one block list: what C02 / C13 quantify over *)
 Definition probe_blocks (bl : iranges) : bytes :=
   let n := rs_len bl in
   let fr := rs_iter bl in
   let lo := rs_min bl - 2 in
-  let cnt := Z.to_nat (rs_max bl - rs_min bl + 5) in
-  let vals := zrange lo cnt in
   kz "len" n ++ kz "start" (rs_start bl) ++ kz "end" (rs_end bl) ++
   kz "min" (rs_min bl) ++ kz "max" (rs_max bl) ++
   kl "frames" fr ++
-  kv "value" (join_with c_comma (map (fun i => optz (rs_value bl i)) (zrange (-2) (Z.to_nat (n + 5))))) ++
-  kl "index" (map (rs_index bl) vals) ++
-  kv "has" (map (fun v => if rs_contains bl v then 49%nat else 48%nat) vals) ++
+  (if probe_guard n (rs_min bl) (rs_max bl) then [] else
+   let vals := zrange lo (Z.to_nat (rs_max bl - rs_min bl + 5)) in   (* inside the guard: extraction is strict *)
+   kv "value" (join_with c_comma (map (fun i => optz (rs_value bl i)) (zrange (-2) (Z.to_nat (n + 5))))) ++
+   kl "index" (map (rs_index bl) vals) ++
+   kv "has" (map (fun v => if rs_contains bl v then 49%nat else 48%nat) vals)) ++
   kh "str" (rs_string itoa bl).
 
 (** observation of a frame set through its own API (no block string; min and
@@ -64,13 +70,14 @@ Definition probe_fs (bl : iranges) : bytes :=
   let n := rs_len bl in
   let fr := rs_iter bl in
   let mn := list_min fr in let mx := list_max fr in
-  let vals := zrange (mn - 2) (Z.to_nat (mx - mn + 5)) in
   kz "len" n ++ kz "start" (rs_start bl) ++ kz "end" (rs_end bl) ++
   kz "min" mn ++ kz "max" mx ++
   kl "frames" fr ++
-  kv "value" (join_with c_comma (map (fun i => optz (rs_value bl i)) (zrange (-2) (Z.to_nat (n + 5))))) ++
-  kl "index" (map (rs_index bl) vals) ++
-  kv "has" (map (fun v => if rs_contains bl v then 49%nat else 48%nat) vals).
+  (if probe_guard n mn mx then [] else
+   let vals := zrange (mn - 2) (Z.to_nat (mx - mn + 5)) in
+   kv "value" (join_with c_comma (map (fun i => optz (rs_value bl i)) (zrange (-2) (Z.to_nat (n + 5))))) ++
+   kl "index" (map (rs_index bl) vals) ++
+   kv "has" (map (fun v => if rs_contains bl v then 49%nat else 48%nat) vals)).
 
 
 (** fastwalk: a tree given as a parent vector (node 0 is the root; parents.[i] < i) and a
